@@ -221,6 +221,9 @@ def gen_dom(rng, kind, force=None):
         ep = ''.join(rng.choice('abcdefXYZ019_.') for _ in range(ln)).encode()
         if ep == b'default':
             ep = b'defaul'
+        if rng.random() < 0.08:     # '%' inside the entrypoint: text form `addr%a%b`, split at the first '%' only
+            i = rng.randrange(len(ep))
+            ep = ep[:i] + b'%' + ep[i + 1:]
     return ('dom', kind, tag, bytes(payload), ep)
 
 
